@@ -1,7 +1,7 @@
 """C17 — scalar, text and tag encodings round-trip over their whole domain."""
 import rules_c01
 import rules_c02
-from mirlite import callee, callee_res, ty_str, op_place
+from mirlite import callee, callee_res, ty_str, op_place, op_local
 from expr import show, walk, strip_ref
 from discharge import make_prover, VEx, INDEX
 
@@ -26,6 +26,11 @@ INTS = ("u8", "u16", "u32", "u64", "usize")
 
 def find(crates, E, T):
     return rules_c01.find_encoding_impl(crates, E, T)
+
+
+def op_local_of_dest(t):
+    d = t.get("dest")
+    return d["l"] if isinstance(d, dict) and not d.get("p") else None
 
 
 def eq_consts(body, vx, pred):
@@ -240,31 +245,127 @@ def tags(chk, crates):
                 out.add(i)
         return out
     wcalls = [(bb, t) for bb, t in enc.calls() if callee(t).endswith("u16>::to_be_bytes")]
-    rcalls = [(bb, t) for bb, t in dec.calls() if callee(t) == "zvt_builder::encoding::Encoding::decode" and
-              [ty_str(x) for x in t["f"]["a"]][:2] == ["zvt_builder::encoding::BigEndian", "u16"]]
-    wk, rk = key_locals(enc, ve, high_byte), key_locals(dec, vd, first_byte)
-    if not chk.require(len(wcalls) == 1 and len(rcalls) == 1 and wk and rk, "C17-c/present", "Encoding<Tag> two-byte form",
-                       "two-byte form or its selecting byte not found (writer calls %d, reader calls %d, key locals %d/%d)"
+    # the two-byte form is read as a big-endian u16: through the BigEndian u16 codec or u16::from_be_bytes
+    rcalls = [(bb, t) for bb, t in dec.calls() if (callee(t) == "zvt_builder::encoding::Encoding::decode" and
+              [ty_str(x) for x in t["f"]["a"]][:2] == ["zvt_builder::encoding::BigEndian", "u16"]) or
+              callee(t) == "core::num::<impl u16>::from_be_bytes"]
+    # ... also when that read sits in a closure handed to a combinator (`rest.split_first().map(|..| from_be_bytes..)`):
+    # the combinator call then stands for the read
+    for cr_ in crates.values() if isinstance(crates, dict) else crates:
+        for cb in cr_.bodies.values():
+            if cb.raw.get("parent") != dec.id or not any(callee(t_) == "core::num::<impl u16>::from_be_bytes" for _, t_ in cb.calls()):
+                continue
+            holders = {l for l, ds in dec.defs.items() for d_ in ds
+                       if d_[2] == "assign" and d_[3]["rv"]["r"] == "agg" and d_[3]["rv"].get("kind") == "closure" and d_[3]["rv"].get("n") == cb.id}
+            for bb, t_ in dec.calls():
+                if any(op_local(a_) in holders for a_ in t_["args"]):
+                    rcalls.append((bb, t_))
+
+    def first_byte_any(e):
+        """the first input byte, however it is obtained"""
+        if first_byte(e):
+            return True
+        from discharge import unq
+        e2 = strip_ref(unq(e))
+        if e2[0] == "path" and e2[1] == vd.root_name(1) and tuple(e2[2]) == ("[0]",):
+            return True
+        if e2[0] == "proj" and e2[1][0] == "call" and tuple(e2[2])[:2] == ("@Some", "0"):
+            n_ = e2[1][1]
+            if n_.endswith("<impl [T]>::first") and len(e2[2]) == 2:
+                return True
+            if n_.endswith("<impl [T]>::split_first") and tuple(e2[2]) == ("@Some", "0", "0"):
+                return True
+            if n_.endswith("<impl [T]>::get") and len(e2[1][2]) == 2 and e2[1][2][1] == ("const", 0) and len(e2[2]) == 2:
+                return True
+        return False
+    wk, rk = key_locals(enc, ve, high_byte), key_locals(dec, vd, first_byte_any)
+    # slice patterns read the byte in place: pin the place as well
+    rk_places = {("byte", 1, 0)}
+    # the writer may also select on the first byte of `tag.to_be_bytes()` (array pattern): pin that place
+    wk_places = {("byte", op_local_of_dest(t_), 0) for _, t_ in wcalls if op_local_of_dest(t_) is not None}
+    if not chk.require(len(rcalls) == 1 and (wk or wk_places) and (rk or rk_places), "C17-c/present", "Encoding<Tag> two-byte form",
+                       "two-byte form or its selecting byte not found (writer to_be_bytes calls %d, reader calls %d, key locals %d/%d)"
                        % (len(wcalls), len(rcalls), len(wk), len(rk)), "", enc.sp(), nontrivial=False):
         return
+    import pathsym as ps
+    pe_w = ps.PathEval(enc, {})
+    tag_val = ("field", ("pre", 1), "0")
+
+    def byte_of(e):
+        """'hi' / 'lo' if e is the high / low byte of the tag value"""
+        e = ps.strip(e) if hasattr(ps, "strip") else e
+        if e[0] == "cast" and e[2] == "u8":
+            x = e[1]
+            if x == tag_val:
+                return "lo"
+            if x[0] == "bin" and x[1] == "Shr" and x[2] == tag_val and x[3] == ("const", 8):
+                return "hi"
+            if x[0] == "bin" and x[1] == "BitAnd" and tag_val in (x[2], x[3]) and ("const", 255) in (x[2], x[3]):
+                return "lo"
+        if e[0] == "field" and e[1][0] == "call" and e[1][1] == "core::num::<impl u16>::to_be_bytes" and e[1][2] == (tag_val,):
+            k_ = e[2]
+            ix = k_[1] if isinstance(k_, tuple) and k_ and k_[0] == "cidx" else (k_[1][1] if isinstance(k_, tuple) and k_[0] == "idx" and k_[1][0] == "const" else None)
+            return {0: "hi", 1: "lo"}.get(ix)
+        return None
+
+    def tag_bytes(e, d=0):
+        """the byte string an expression denotes, as a list over {'hi','lo'} (None = not understood)"""
+        if d > 12 or not isinstance(e, tuple):
+            return None
+        if e[0] == "call":
+            n_ = e[1]
+            if n_ == "core::num::<impl u16>::to_be_bytes" and e[2] == (tag_val,):
+                return ["hi", "lo"]
+            if n_.endswith(("::to_vec", "::into_vec", "::box_assume_init_into_vec_unsafe", "::from", "::into", "::to_owned", "Box::<T>::new",
+                            "::box_new")) and e[2]:
+                return tag_bytes(e[2][0], d + 1)
+            return None
+        if e[0] == "agg" and e[1] == "update":
+            return tag_bytes(e[2][-1], d + 1)
+        if e[0] == "agg" and e[1] == "array":
+            out_ = [byte_of(x) for x in e[2]]
+            return None if None in out_ else out_
+        if e[0] == "ref":
+            return tag_bytes(e[1], d + 1)
+        return None
     wset, rset = set(), set()
     w_exclusive = r_exclusive = True
+    w_other = {}
+    rets_w = sorted(ok_returns(enc))
     for v in range(256):
         pw = {l: ("i", v) for l in wk}
+        pw.update({k_: ("i", v) for k_ in wk_places})
         pr_ = {l: ("i", v) for l in rk}
-        if wcalls[0][0] in feasible_reach(enc, 0, pins=pw):
+        pr_.update({k_: ("i", v) for k_ in rk_places})
+        # the writer is judged by what it returns for this high byte, along every feasible path
+        forms = set()
+        for r_ in rets_w:
+            for path in ps.simple_paths(enc, 0, r_, pins=pw):
+                env_, _ = pe_w.run(path)
+                tb_ = tag_bytes(ps.norm(env_.get(0, ("pre", 0))))
+                forms.add(tuple(tb_) if tb_ is not None else ("?", ps.show(ps.norm(env_.get(0, ("pre", 0))))[:80]))
+        if ("hi", "lo") in forms:
             wset.add(v)
-            # for a page value nothing but the two-byte form may be produced
-            if ok_returns(enc) & feasible_reach(enc, 0, cut_blocks=[wcalls[0][0]], pins=pw):
+            if forms != {("hi", "lo")}:
                 w_exclusive = False
-        if rcalls[0][0] in feasible_reach(dec, 0, pins=pr_):
-            rset.add(v)
-            rest = feasible_reach(dec, 0, cut_blocks=[rcalls[0][0]], pins=pr_)
-            for i in rest:
-                for st in dec.blocks[i]["stmts"]:
-                    if st["s"] == "assign" and st["p"]["l"] == 0 and not st["p"]["p"] and st["rv"]["r"] == "agg" and \
-                            st["rv"].get("vname") == "Ok":
-                        r_exclusive = False
+        for f_ in forms - {("hi", "lo"), ("lo",)}:
+            w_other.setdefault(f_, []).append(v)
+        # ... and over the input length (0..4 stands for "4 or more": lengths are only compared with small constants)
+        for L_ in range(1, 5):
+            pl = dict(pr_)
+            pl[("len", 1)] = ("i", L_)
+            if rcalls[0][0] in feasible_reach(dec, 0, pins=pl):
+                rset.add(v)
+        if v in rset:
+            for L_ in range(1, 5):
+                pl = dict(pr_)
+                pl[("len", 1)] = ("i", L_)
+                rest = feasible_reach(dec, 0, cut_blocks=[rcalls[0][0]], pins=pl)
+                for i in rest:
+                    for st in dec.blocks[i]["stmts"]:
+                        if st["s"] == "assign" and st["p"]["l"] == 0 and not st["p"]["p"] and st["rv"]["r"] == "agg" and \
+                                st["rv"].get("vname") == "Ok":
+                            r_exclusive = False
     chk.analysed["tag_page_case_split"] = {"values": 256, "writer_pages": sorted(wset), "reader_pages": sorted(rset)}
     chk.require(wset == TAG_PAGES, "C17-c/writer-pages", "Encoding<Tag>::encode",
                 "two-byte tags are written for high bytes %s, specification says %s" % (sorted(map(hex, wset)), sorted(map(hex, TAG_PAGES))),
@@ -278,14 +379,11 @@ def tags(chk, crates):
                 "for a two-byte page the writer can also produce a result that is not `tag.to_be_bytes()`", "to_be_bytes on every page path", enc.sp())
     chk.require(r_exclusive, "C17-c/two-byte-reader", "Encoding<Tag>::decode",
                 "for a two-byte page the reader can also return a tag without reading the big-endian u16", "BigEndian u16 on every page path", dec.sp())
-    # one-byte form: writer `tag as u8` array literal
-    one = []
-    for i in sorted(enc.reachable(0)):
-        for st in enc.blocks[i]["stmts"]:
-            if st["s"] == "assign" and st["rv"]["r"] == "agg" and st["rv"]["kind"] == "array" and ty_str(st["rv"].get("ty")) == "u8":
-                one.append([ve.operand(o, i) for o in st["rv"]["ops"]])
-    ok = len(one) == 1 and len(one[0]) == 1 and one[0][0][0] == "cast" and one[0][0][2] == "u8"
-    chk.require(ok, "C17-c/one-byte-writer", "Encoding<Tag>::encode", "the one-byte form is not `[tag as u8]`: %s" % one, "[tag as u8]", enc.sp())
+    # one-byte form: every other high byte yields exactly the low byte (`[tag as u8]`, `[low]` of to_be_bytes, ..)
+    chk.require(not w_other, "C17-c/one-byte-writer", "Encoding<Tag>::encode",
+                "the writer can produce something that is neither [high, low] nor [low]: %s"
+                % "; ".join("%s for high byte(s) %s" % (list(f_), [hex(x) for x in vs_[:4]]) for f_, vs_ in sorted(w_other.items(), key=str)),
+                "[tag as u8]", enc.sp())
     # BigEndian Tag = plain u16 big endian both ways
     enc2, dec2 = find(crates, "zvt_builder::encoding::BigEndian", "zvt_builder::Tag")
     if enc2 is not None and dec2 is not None:
